@@ -194,6 +194,13 @@ def matrix_cases(tier: str) -> list:
                 for allow in (False, True):
                     for mode in ("explicit", "inferred"):
                         out.append({"fn": fn, "format": fmt, "state": state, "allow_overwrite": allow, "mode": mode})
+                    if fmt not in (UNKNOWN_FORMAT, HALF_FORMAT):
+                        # the flag as it comes out of an array / table / configuration file: numpy booleans, 0 / 1
+                        out.append({"fn": fn, "format": fmt, "state": state, "allow_overwrite": allow, "mode": "explicit",
+                                    "flag": ["numpy", "int"][len(out) % 2]})
+                    if fn != "save_result" and fmt not in (UNKNOWN_FORMAT, HALF_FORMAT) and state in ("absent", "file"):
+                        # a target without extension with an explicit format, next to a file that carries the extension
+                        out.append({"fn": fn, "format": fmt, "state": state, "allow_overwrite": allow, "mode": "explicit", "spelling": "bare"})
                     if fn == "save_result" and fmt not in (UNKNOWN_FORMAT, HALF_FORMAT):
                         # the folder spelling of the target (no extension), which every result format accepts
                         out.append({"fn": fn, "format": fmt, "state": state, "allow_overwrite": allow, "mode": "explicit", "spelling": "bare"})
@@ -250,6 +257,8 @@ def prop_matrix(case):
         out.mkdir(parents=True)
         (work / "bystander.keep").write_bytes(b"precious bystander\n")
         (out / "bystander2.keep").write_bytes(b"precious neighbour\n")
+        if case.get("spelling") == "bare" and fn != "save_result":
+            (out / f"target_dir.{fmt}").write_bytes(b"precious sibling that carries the extension\n")
         target = out / ("target_dir" if case.get("spelling") == "bare" else f"target.{fmt}")
         if state == "file":
             target.write_bytes(b"precious target\n")
@@ -270,14 +279,20 @@ def prop_matrix(case):
         folder_target = fn == "save_result" and target.suffix not in (".yml", ".yaml")
         before = snapshot(work)
         protected = state in ("file", "nonempty_dir", "dot_only_dir")
-        kwargs = {"allow_overwrite": True} if allow else {}
+        flag = case.get("flag")
+        if flag == "numpy":
+            kwargs = {"allow_overwrite": np.bool_(allow)}
+        elif flag == "int":
+            kwargs = {"allow_overwrite": int(allow)}
+        else:
+            kwargs = {"allow_overwrite": True} if allow else {}
         raised = None
         try:
             getattr(gio, fn)(payload, target, fmt if mode == "explicit" else None, **kwargs)
         except Exception as e:  # noqa: BLE001
             raised = e
         after = snapshot(work)
-        tags = [fn, f"format={fmt}", state, "overwrite" if allow else "protect", mode] + (["folder_spelling"] if case.get("spelling") == "bare" else [])
+        tags = [fn, f"format={fmt}", state, "overwrite" if allow else "protect", mode] + (["folder_spelling" if fn == "save_result" else "target_without_extension"] if case.get("spelling") == "bare" else []) + ([f"flag_{case['flag']}"] if case.get("flag") else [])
         where = f"{fn}(format={fmt!r}, {mode}) target={state} allow_overwrite={allow}"
         if protected and not allow:
             check(isinstance(raised, FileExistsError), "matrix.refuses",
@@ -285,9 +300,12 @@ def prop_matrix(case):
             check(after == before, "matrix.refusal_leaves_tree", lambda: f"{where}: {snap_diff(before, after)}")
             tags.append("refused")
             return {"nontrivial": (not known) or fmt == HALF_FORMAT or not supported, "tags": tags}
-        for name in ("bystander.keep", "out/bystander2.keep"):
+        sibling = [f"out/target_dir.{fmt}"] if (case.get("spelling") == "bare" and fn != "save_result") else []
+        for name in ["bystander.keep", "out/bystander2.keep"] + sibling:
             check(after.get(name) == before[name], "matrix.bystander", lambda: f"{where}: {name} touched: {snap_diff(before, after)}")
-        wellformed = supported and (
+        # (a file target without extension with an explicit format may be refused by the writer - e.g. pandas' "No engine for
+        # filetype" - or written as it is: either way nothing else may be touched)
+        wellformed = supported and not sibling and (
             state in ("absent", "empty_dir", "nonempty_dir", "dot_only_dir") if folder_target else state in ("absent", "file")
         )
         if wellformed:
